@@ -81,7 +81,7 @@ claim("C13",
 claim("C14",
       "The dispatcher's real ingestion workers (run) consume 2-3 back-to-back versions of one alert; the engine explores every assignment of updates to workers and every "
       "interleaving at channel/sync.Map/store-lock granularity within a preemption bound and asserts that every group ends with the version submitted last. The racing updates also go into an already registered group.",
-      "Bounds: 2 updates x 2 workers, preemption bound 1 (quick); 3 updates, 2-3 workers, preemption bound 2 (thorough). Counterexample schedules are confirmed natively on the real worker goroutines with the "
+      "Bounds: 2 updates x 2 workers, preemption bound 1 (quick); 3 updates, 2 workers, preemption bound 1 (thorough). Counterexample schedules are confirmed natively on the real worker goroutines with the "
       "engine's order of arrival at synchronisation points enforced by overlay instrumentation (DESIGN.md 3.7). Preemption between non-synchronising instructions is outside. " + TRUSTED, "4 C14")
 claim("C15",
       "ContainsTime is compared with the documented meaning for every accepted interval specification (up to 1-2 ranges per field, each field possibly absent, symbolic bounds) and for every "
